@@ -30,7 +30,10 @@ def thread_case(rng, i, shared):
         name = 't%d.c3d' % i; open(os.path.join(shared, name), 'wb').write(c3dspec.encode(L, c))
         lines = ['loadx 0 ' + name, 'snap 0', 'point 0 x6e6577']
     cid = 't%d' % i
-    lines += ['save 0 %s_a.c3d' % cid, 'load 1 %s_a.c3d' % cid, 'snap 1', 'save 1 %s_b.c3d' % cid, 'fsum %s_a.c3d' % cid, 'fsum %s_b.c3d' % cid, 'drop 0', 'load 2 %s_b.c3d' % cid, 'snap 2', 'drop 1', 'drop 2']
+    # different paths that differ ONLY in their extension (neighbouring cases run at the same time): rec7_a.c3d / rec7_a.bak;
+    # nothing derived from the stem of a path may be shared between two saves
+    fa = 'rec%d_a.%s' % (i // 2, 'c3d' if i % 2 == 0 else 'bak'); fb = 'rec%d_b.%s' % (i // 2, 'c3d' if i % 2 == 0 else 'bak')
+    lines += ['save 0 ' + fa, 'load 1 ' + fa, 'snap 1', 'save 1 ' + fb, 'fsum ' + fa, 'fsum ' + fb, 'drop 0', 'load 2 ' + fb, 'snap 2', 'drop 1', 'drop 2']
     return cid, lines
 
 def run(rep, work, rng, tier):
